@@ -71,7 +71,8 @@ REQUIRED_COUNTERS = {"elevation.calls": 300, "native.calls": 3000, "tiles.calls"
                      "tilegrid.calls": 27, "cache.get_tile.calls": 20, "cache.hits": 5,
                      "cache.misses": 5, "cache.marker_pixels": 100,
                      "fake_get_tile.calls": 300, "elevation.tiles_2": 20,
-                     "elevation.tiles_4": 10}
+                     "elevation.tiles_4": 10, "download.get_tile.calls": 8,
+                     "download.faults_reaching_caller": 2}
 SHARD_TIMEOUT = {"quick": 600, "thorough": 5400}
 
 N_ELEV_SHARDS = 14
@@ -935,8 +936,125 @@ def run_elev(spec, rec):
         rec.count("synthetic_tiles_made", fake.lru.made)
 
 
+_ZIPS = {}
+
+
+def tile_zip_bytes(name):
+    """The archive the server would deliver for a tile (synthetic content, marker pixels set)."""
+    import io
+    import zipfile
+    if name not in _ZIPS:
+        d = scratch_dir("c20-zip")
+        try:
+            path = os.path.join(d, (name + ".dem").upper())
+            write_tile_file(path, name)
+            buf = io.BytesIO()
+            with zipfile.ZipFile(buf, "w", zipfile.ZIP_DEFLATED, compresslevel=1) as z:
+                z.write(path, os.path.basename(path))
+            _ZIPS[name] = buf.getvalue()
+        finally:
+            shutil.rmtree(d, ignore_errors=True)
+    return _ZIPS[name]
+
+
+class _Transfer:
+    """What urlopen returns: delivers the archive, or breaks off after `fail_after` bytes."""
+
+    def __init__(self, data, fail_after=None):
+        self.data, self.pos, self.fail_after = data, 0, fail_after
+
+    def read(self, n=-1):
+        if self.fail_after is not None and self.pos >= self.fail_after:
+            raise ConnectionResetError("harness: transfer broken off")
+        end = len(self.data) if n is None or n < 0 else min(len(self.data), self.pos + n)
+        if self.fail_after is not None:
+            end = min(end, max(self.fail_after, self.pos + 1))
+        out = self.data[self.pos:end]
+        self.pos = end
+        return out
+
+    def close(self):
+        pass
+
+    def __enter__(self):
+        return self
+
+    def __exit__(self, *a):
+        return False
+
+
+def check_download(rec, case):
+    """The real download_tile / get_tile against a faked urlopen: a tile whose transfer broke off (or
+    whose request was refused) is fetched again at the next request and then served from the cache."""
+    import numpy as np
+    import typhon.topography as topo
+    from typhon.topography import SRTM30
+    from vt.models import srtm_model as m
+    if not hasattr(topo.urllib, "request"):
+        # (the harness must not import urllib.request itself: that would repair the module under test)
+        rec.violation("srtm-cache-exception", case,
+                      {"why": "typhon.topography uses urllib.request without importing it: every request "
+                              "for a tile that is not cached raises AttributeError"})
+        return
+    tmp = scratch_dir("c20-dl")
+    saved_path = topo._data_path
+    saved_open = topo.urllib.request.urlopen
+    name = case["name"]
+    requests = []
+    plan = list(case["plan"])          # per request: "ok" | "refused" | fraction of the archive delivered
+
+    def fake_urlopen(url, *a, **kw):
+        requests.append(url)
+        rec.count("download.requests")
+        what = plan.pop(0) if plan else "ok"
+        if what == "refused":
+            raise OSError("harness: connection refused")
+        data = tile_zip_bytes(name)
+        return _Transfer(data, None if what == "ok" else int(len(data) * float(what)))
+    try:
+        topo._data_path = tmp
+        topo.urllib.request.urlopen = fake_urlopen
+        k0, j0 = m.tile_origin(name)
+        served = False
+        for step in range(len(case["plan"]) + 2):
+            before = len(requests)
+            rec.ev()
+            rec.count("download.get_tile.calls")
+            try:
+                y = np.asarray(SRTM30.get_tile(name))
+            except Exception as exc:
+                if before < len(requests) and step < len(case["plan"]) and case["plan"][step] != "ok":
+                    rec.count("download.faults_reaching_caller")
+                    continue             # the injected fault reached the caller: fine
+                rec.violation("srtm-cache-exception", case,
+                              {"step": step, "exception": repr(exc), "requests_so_far": len(requests),
+                               "why": "no fault was injected into this request"})
+                return
+            if len(requests) - before != (0 if served else 1):
+                rec.violation("srtm-cache-download", case,
+                              {"step": step, "requests": len(requests) - before, "already_served": served})
+                return
+            served = True
+            for r, c in MARK_PIXELS:
+                v = int(m.synth_block(k0 + r, j0 + c, 1, 1)[0, 0])
+                if y.shape != (m.TILE_ROWS, m.TILE_COLS) or int(y[r, c]) != v:
+                    rec.violation("srtm-tile-format", case, {"step": step, "pixel": [r, c]})
+                    return
+            del y
+        if served:
+            rec.nontriv(["download", tuple(case["plan"])], case["plan"])
+    finally:
+        topo._data_path = saved_path
+        topo.urllib.request.urlopen = saved_open
+        shutil.rmtree(tmp, ignore_errors=True)
+
+
 def run_cache(spec, rec):
     rng = rng_for(spec["seed"], "c20-cache", spec["shard"])
+    from vt.models import srtm_model as m
+    for plan in ([], ["refused"], [rng.choice(["0.0", "0.3", "0.9"])],
+                 [rng.choice(["0.5", "0.99"]), "refused"]):
+        check_download(rec, {"kind": "download", "name": rng.choice([t[0] for t in m.TILES]), "plan": plan})
     for i in range(spec["n"]):
         case = gen_cache_ops(rng)
         if i == 0:
@@ -963,6 +1081,8 @@ def replay(case, rec):
     kind = case.get("kind")
     if kind == "cache":
         check_cache(rec, case)
+    elif kind == "download":
+        check_download(rec, case)
     elif kind == "tilegrid":
         check_tilegrid(rec, case)
     elif kind == "elev":
